@@ -861,7 +861,7 @@ fn run_line(out: &mut Out, base: &Context, l: &str, tag: &str) {
 fn main() {
     let args = Args::parse();
     let mut out = Out::new(&args);
-    out.rule = "sessions of 1-2 inputs on a prelude context, drawn from 68 templates (16 kinds of successful results echoing user text, 8 parse-error shapes, unknown module, 4 name-resolution shapes, 26 type-check error shapes, 10 run-time error shapes, info/help) with payloads of HTML metacharacters (26 fixed payloads such as <img src=x onerror=alert(1)>, </span>, &amp;, quotes, or random strings over < > & \" ' ; / = ! and letters) placed in string literals, comments, decorator strings and raw token positions; every markup/diagnostic produced is rendered as numbat-wasm renders it. Plus synthetic markup (0-6 parts of any FormatType, with/without indent) and synthetic writer call sequences (set_color with 10 colours x bold, reset, flush, writes of texts split at arbitrary byte positions). distinct = distinct session / request text; non-trivial = at least one rendering in which the renderer had to escape a metacharacter".into();
+    out.rule = "sessions of 1-2 inputs on a prelude context, drawn from 68 templates (16 kinds of successful results echoing user text, 8 parse-error shapes, unknown module, 4 name-resolution shapes, 26 type-check error shapes, 10 run-time error shapes, info/help) with payloads of HTML metacharacters (32 fixed payloads such as <img src=x onerror=alert(1)>, </span>, &amp;, quotes, URL-, mailto- and javascript-shaped texts with metacharacters, or random strings over < > & \" ' ; / = ! and letters) placed in string literals, comments, decorator strings and raw token positions; every markup/diagnostic produced is rendered as numbat-wasm renders it. Plus synthetic markup (0-6 parts of any FormatType, with/without indent) and synthetic writer call sequences (set_color with 10 colours x bold, reset, flush, writes of texts split at arbitrary byte positions). distinct = distinct session / request text; non-trivial = at least one rendering in which the renderer had to escape a metacharacter".into();
 
     let mut base = Context::new(BuiltinModuleImporter::default());
     let _ = base.interpret("use prelude", CodeSource::Internal).expect("prelude");
